@@ -382,3 +382,51 @@ def _or(a, b):
     if a.eq(b):
         return a
     return z3.Or(a, b)
+
+
+def accepted_lengths(pattern: str, flags: int, alphabet: str, max_len: int, mode="match"):
+    """The set of n <= max_len such that some string of length n over `alphabet` is accepted
+    (exact: existential NFA simulation with concrete characters)."""
+    nfa, s0, fin = compile_nfa(pattern, flags)
+    codes = [ord(c) for c in alphabet]
+    by_src = {}
+    for q, p, q2 in nfa.trans:
+        by_src.setdefault(q, []).append((p, q2))
+
+    def closure(states, at_begin, can_end):
+        out = set(states)
+        work = list(states)
+        while work:
+            q = work.pop()
+            for q2, kind in nfa.eps.get(q, ()):
+                if kind == "begin" and not at_begin:
+                    continue
+                if kind in ("end", "end_strict") and not can_end:
+                    continue
+                if q2 not in out:
+                    out.add(q2)
+                    work.append(q2)
+        return out
+
+    result = set()
+    # states reachable after k chars WITHOUT having used an end-anchor
+    cur = closure({s0}, True, False)
+    for k in range(0, max_len + 1):
+        # can we accept with exactly k chars consumed (end anchors allowed now)?
+        fin_now = fin in closure(cur, k == 0, True)
+        if fin_now:
+            result.add(k)
+        if k == max_len:
+            break
+        nxt = set()
+        for q in cur:
+            for p, q2 in by_src.get(q, ()):
+                if any(p(c) is True for c in codes):
+                    nxt.add(q2)
+        prev_accept_prefix = (mode != "fullmatch") and (fin in cur)
+        cur = closure(nxt, False, False)
+        if prev_accept_prefix:
+            # an unanchored prefix match: every longer string is accepted too
+            result.update(range(k, max_len + 1))
+            break
+    return result
